@@ -22,6 +22,7 @@ EXPLANATION = (
     "current algorithm/density/nodeSpacing/stubWidth to the distributor (C04.OPTFLOW); documented defaults "
     "(C04.DEFAULTS); Force.compute sets layerIndex for every node of every layer and retains the layering "
     "(C04.LAYERIDX, C04.REPORTED) after removing stale stubs from every label (C06.RESET)."
+    "  Also part of this check: each engine's distributor has private options (GEN.OPTS-MERGE) and the layer width is maxPos - minPos as Force.set_options derives it (C03.LAYERWIDTH)."
 )
 ASSUMPTIONS = ["density in (0,1], spacing and stub width >= 0 (property domain)"]
 
